@@ -1,6 +1,7 @@
 package main
 
 import (
+	"fmt"
 	"go/token"
 	"go/types"
 	"sort"
@@ -72,6 +73,139 @@ type pstate struct {
 	b    *ssa.BasicBlock
 	held bool
 	pred int // index of the predecessor edge taken into b when b branches on one of its own phis, else -1
+	// facts: what the path has established about SSA values that the function compares with
+	// constants more than once ("v3=\"RW\"", "v3!\"WO\""); edges that contradict it are not taken
+	facts string
+}
+
+// constCmp: block b ends in `if v == c` / `if v != c` (c a constant, v not): returns v, the
+// constant's rendering and whether the TRUE edge means equality.
+type constCmpT struct {
+	v    ssa.Value
+	c    string
+	eqOn bool
+}
+
+var constCmpMemo = map[*ssa.Function]map[*ssa.BasicBlock]*constCmpT{}
+
+func constCmps(fn *ssa.Function) map[*ssa.BasicBlock]*constCmpT {
+	if m, ok := constCmpMemo[fn]; ok {
+		return m
+	}
+	m := map[*ssa.BasicBlock]*constCmpT{}
+	count := map[ssa.Value]int{}
+	for _, b := range fn.Blocks {
+		if len(b.Instrs) == 0 {
+			continue
+		}
+		iff, ok := b.Instrs[len(b.Instrs)-1].(*ssa.If)
+		if !ok {
+			continue
+		}
+		cond := iff.Cond
+		neg := false
+		for {
+			if u, ok := cond.(*ssa.UnOp); ok && u.Op == token.NOT {
+				cond, neg = u.X, !neg
+				continue
+			}
+			break
+		}
+		bo, ok := cond.(*ssa.BinOp)
+		if !ok || (bo.Op != token.EQL && bo.Op != token.NEQ) {
+			continue
+		}
+		var v ssa.Value
+		var c *ssa.Const
+		if k, ok := bo.Y.(*ssa.Const); ok {
+			v, c = bo.X, k
+		} else if k, ok := bo.X.(*ssa.Const); ok {
+			v, c = bo.Y, k
+		}
+		if v == nil || c == nil || c.Value == nil {
+			continue // nil comparisons are handled by the nil-test machinery
+		}
+		if _, isC := v.(*ssa.Const); isC {
+			continue
+		}
+		// look through conversions: string(mode) == "RW" and mode == types.RW compare one value
+		for {
+			if cv, ok := v.(*ssa.ChangeType); ok {
+				v = cv.X
+				continue
+			}
+			if cv, ok := v.(*ssa.Convert); ok {
+				if bt, ok := cv.X.Type().Underlying().(*types.Basic); ok && bt.Info()&types.IsString != 0 {
+					v = cv.X
+					continue
+				}
+			}
+			break
+		}
+		eq := bo.Op == token.EQL
+		if neg {
+			eq = !eq
+		}
+		m[b] = &constCmpT{v, constString(c), eq}
+		count[v]++
+	}
+	for b, cc := range m {
+		if count[cc.v] < 2 {
+			delete(m, b)
+		}
+	}
+	constCmpMemo[fn] = m
+	return m
+}
+
+// stepFacts: the facts after taking successor k of b, or ok=false when the edge contradicts them.
+func stepFacts(fn *ssa.Function, facts string, b *ssa.BasicBlock, k int) (string, bool) {
+	cc := constCmps(fn)[b]
+	if cc == nil || len(b.Succs) != 2 {
+		return facts, true
+	}
+	id := fmt.Sprintf("%p", cc.v)
+	isEq := (k == 0) == cc.eqOn
+	var fs []string
+	if facts != "" {
+		fs = strings.Split(facts, "\x00")
+	}
+	eqKey, neKey := id+"="+cc.c, id+"!"+cc.c
+	for _, f := range fs {
+		if strings.HasPrefix(f, id+"=") {
+			// value known
+			if isEq && f != eqKey {
+				return facts, false
+			}
+			if !isEq && f == eqKey {
+				return facts, false
+			}
+			return facts, true // nothing new
+		}
+		if isEq && f == neKey {
+			return facts, false
+		}
+		if !isEq && f == neKey {
+			return facts, true
+		}
+	}
+	if isEq {
+		// replaces the inequalities of this value
+		var out []string
+		for _, f := range fs {
+			if !strings.HasPrefix(f, id+"!") {
+				out = append(out, f)
+			}
+		}
+		fs = append(out, eqKey)
+	} else {
+		fs = append(fs, neKey)
+	}
+	sort.Strings(fs)
+	if len(fs) > 12 {
+		return facts, true // bound the state space: stop learning
+	}
+	return strings.Join(fs, "\x00"), true
 }
 
 // phiBranchBlock: b ends in an If whose condition is decided by a phi of b itself (a nil
@@ -233,12 +367,12 @@ func (q Query) Run() []Witness {
 	}
 	var queue []work
 	if q.Start != nil {
-		queue = append(queue, work{pstate{q.Start.Block(), q.StartHeld, -1}, instrIndex(q.Start) + 1})
+		queue = append(queue, work{pstate{q.Start.Block(), q.StartHeld, -1, ""}, instrIndex(q.Start) + 1})
 	} else {
 		if len(q.Fn.Blocks) == 0 {
 			return nil
 		}
-		queue = append(queue, work{pstate{q.Fn.Blocks[0], q.StartHeld, -1}, 0})
+		queue = append(queue, work{pstate{q.Fn.Blocks[0], q.StartHeld, -1, ""}, 0})
 	}
 	for len(queue) > 0 {
 		w := queue[0]
@@ -280,6 +414,10 @@ func (q Query) Run() []Witness {
 			if infeasibleSucc(s.b, s.pred, k) {
 				continue
 			}
+			nf, feasible := stepFacts(s.b.Parent(), s.facts, s.b, k)
+			if !feasible {
+				continue
+			}
 			h := held
 			if q.GenEdge != nil && q.GenEdge(s.b, k) {
 				h = true
@@ -287,7 +425,7 @@ func (q Query) Run() []Witness {
 			if q.KillEdge != nil && q.KillEdge(s.b, k) {
 				h = false
 			}
-			n := pstate{succ, h, predIndex(s.b, succ)}
+			n := pstate{succ, h, predIndex(s.b, succ), nf}
 			if !visited[n] {
 				if _, ok := prev[n]; !ok {
 					prev[n] = s
